@@ -27,6 +27,26 @@ def matches(kf, prop, f):
             and kf['function'] == f.func and kf['statement'] == f.stmt)
 
 
+class View:
+    """a rule result restricted to the functions a property is about"""
+
+    def __init__(self, rr, scope, props):
+        self.rule, self.info = rr.rule, rr.info
+        if scope is None:
+            self.obligations, self.findings = rr.obligations, rr.findings
+        else:
+            def fn(where):
+                parts = where.split(' ')
+                return parts[1] if len(parts) > 1 else ''
+            self.obligations = [o for o in rr.obligations if props.in_scope(scope, fn(o['where']))]
+            self.findings = [f for f in rr.findings if props.in_scope(scope, f.func)]
+            self.info = dict(rr.info, scope=scope)
+
+
+def props_view(rr, scope, props):
+    return View(rr, scope, props)
+
+
 def main(argv=None):
     ap = argparse.ArgumentParser()
     ap.add_argument('prop')
@@ -49,12 +69,12 @@ def main(argv=None):
         spec = props.PROPS[args.prop]
         ctx = Ctx(args.repo, tier=args.tier)
         results = []
-        for rname in spec['rules']:
-            results.append(run_rule(ctx, rname))
+        for rname, scope in spec['rules']:
+            results.append(props_view(run_rule(ctx, rname), scope, props))
         selfval = None
         if args.tier == 'thorough':
             from . import selfval as sv
-            selfval = sv.run(args.repo, args.prop, spec['rules'])
+            selfval = sv.run(args.repo, args.prop, [r for r, _ in spec['rules']])
     except Exception as e:  # noqa
         from .program import AnalysisError
         if isinstance(e, AnalysisError):
